@@ -1825,6 +1825,12 @@ func (p *scionPacketProcessor) processOHP() disposition {
 		// TODO parameter problem -> invalid path
 		return errorDiscard("error", errMalformedPath)
 	}
+	// As for SCION paths (validatePktLen): never forward or deliver a packet whose PayloadLen
+	// disagrees with the bytes that follow the header.
+	if int(s.PayloadLen) != len(s.Payload) {
+		// TODO parameter problem -> invalid packet size
+		return errorDiscard("error", errBadPacketSize)
+	}
 
 	// OHP leaving our IA
 	if p.ingressFromLink == 0 {
